@@ -1337,6 +1337,21 @@ def auto_persist_members(doc):
             bad.append(f'decorating the subclass changed the base class members: {base_before} -> {now}')
         if Base._auto_persist is not None and Sub._auto_persist is Base._auto_persist:
             bad.append('subclass and base share one member set')
+        # a member declared through the classmethod on a subclass WITHOUT a decorator of its own (what a persist() hook does)
+        # belongs to that subclass only: the base class and a sibling keep their members
+        class Lazy(Base):
+            pass
+
+        class Sibling(Base):
+            pass
+        Lazy.auto_persist('lazy_only')
+        now = set(Base._auto_persist) if Base._auto_persist is not None else None
+        sib = set(Sibling._auto_persist) if Sibling._auto_persist is not None else None
+        if now != base_before or sib != base_before:
+            bad.append(f'base declares {base_members}+{extra_call}: a member declared with the classmethod on an undecorated subclass shows in '
+                       f'the base class ({base_before} -> {now}) / in a sibling ({sib})')
+        if set(Lazy._auto_persist) != (base_before or set()) | {'lazy_only'}:
+            bad.append(f'base declares {base_members}+{extra_call}: the undecorated subclass has members {sorted(Lazy._auto_persist)}')
     # multiple inheritance: members of all decorated bases that the MRO resolves first are kept by copy
     return '; '.join(bad[:3]) or None
 
@@ -1793,7 +1808,36 @@ def context_barrier(doc):
                         if wc.state.name != 'EXCEPTED' or ran_b or 'item %d failed' % failing not in str(wc.exception()):
                             return (f'{where}: state {wc.state.name} exception {wc.exception() if wc.state.name == "EXCEPTED" else None!r}, '
                                     f'next step ran: {ran_b}; expected EXCEPTED with the error of the item and no further step')
-        return None
+        # the SAME awaited item handed over under two keys: the next step finds the result under each of them
+        known = set(doc.get('known_histories') or [])
+        new = []
+        for via_return in (True, False):
+            cls = type('BC', (base,), {'keys': ['one'], 'via_return': via_return, 'futs': {}, 'log': []})
+
+            def a(self):
+                import plumpy
+                cls_ = type(self)
+                f = plumpy.Future()
+                cls_.futs = {'k0': f, 'k1': f}
+                cls_.log.append('a')
+                if cls_.via_return:
+                    return plumpy.ToContext(k0=f, k1=f)
+                self.to_context(k0=f, k1=f)
+            cls = type('BC', (base,), {'keys': ['one'], 'via_return': via_return, 'futs': {}, 'log': [], 'a': a})
+            wc = cls()
+            task = asyncio.ensure_future(wc.step_until_terminated())
+            await _settle()
+            cls.futs['k0'].set_result(7)
+            await _settle(60)
+            task.cancel()
+            want = ('b', {'k0': (True, 7), 'k1': (True, 7)})
+            if wc.state.name != 'FINISHED' or cls.log != ['a', want]:
+                key = f'C10|same-item-under-two-keys|{"ToContext" if via_return else "to_context"}'
+                if key in known:
+                    print('KNOWN-HISTORY', key)
+                else:
+                    new.append(f'{key}: state {wc.state.name}, steps {cls.log}; expected FINISHED with {want}')
+        return '; '.join(new) or None
 
     return _run(main())
 
@@ -2211,7 +2255,9 @@ def output_emission(doc):
                  ('x', 0, False), ('opt', '', True), ('ns.inner', 0, True),
                  # a whole mapping emitted onto a declared namespace that has no explicitly declared ports (an empty namespace is
                  # falsy): it is validated by THAT namespace, not treated as an undeclared port of the parent
-                 ('bag', {'a': 1}, True), ('bag', {'a': 'one'}, False), ('bag', {}, True), ('dyn', {'sub': {'b': 2}}, True)]
+                 ('bag', {'a': 1}, True), ('bag', {'a': 'one'}, False), ('bag', {}, True), ('dyn', {'sub': {'b': 2}}, True),
+                 # falsy values that are not mappings, emitted onto a namespace
+                 ('bag', 0, False), ('bag', [], False), ('opt_ns', '', False), ('dyn', False, False)]
 
     async def main():
         bad = []
@@ -2940,6 +2986,8 @@ def input_validation(doc):
         {'dyn': {'p': None}}, {'dyn': {'p': ''}}, {'dyn': {'p': 0.0}}, {'dyn': {'p': []}}, {'dyn': {'sub': {'q': None}}},
         {'dyn': {'p': 0}}, {'req': 0}, {'req': 0.0}, {'opt': ''}, {'ns': {'a': 0}}, {'ns': {'a': None}},
         {'kdflt': [3]}, {'pdflt': 6}, {'mdflt': 'given'}, {'pdflt': 'six'},
+        # falsy values that are not mappings, given for a namespace
+        {'ns': []}, {'ns': 0}, {'ns': ''}, {'lazy': []}, {'dyn': 0}, {'dyn': ''}, {'ns': False},
     ]
     drops = [(), ('req',), ('ns',)]
 
